@@ -1,10 +1,13 @@
 import SnaxVerif.Lemmas.Cores
 import SnaxVerif.Lemmas.CoreSched
+import SnaxVerif.Props.C14
 /-!
 C13 — cross-core dependencies are separated by a cluster barrier.
 
-The walk modelled is `InsertSyncBarrier.apply` WITH `fixes/F17-sync-barrier-reached-through.diff`
-(`insertBarriers true`); `insertBarriers false` is the walk of the pinned commit (defect D5).
+The walk modelled is `InsertSyncBarrier.apply` WITH
+`fixes/F17-sync-barrier-reached-through.diff` (D5), `fixes/FC13a-sync-barrier-common-loop.diff` (DC13a) and
+`fixes/FC13b-sync-barrier-views.diff` (D6): `insertBarriers Fix.all rt`, `rt` = the root of an SSA value under the
+view-like operations. `Fix.f17` with `rt = id` is the tree with F17 only, `Fix.orig` the pinned commit.
 -/
 namespace SnaxVerif.C13
 open SnaxVerif.Cores
@@ -12,52 +15,80 @@ open SnaxVerif.Cores
 /-- well-formed IR: operation ids identify operations; `scf.if`, `scf.for`, `scf.yield` run on all cores -/
 def WF (p : Blk) : Prop := (idsB p).Nodup ∧ CompoundAll p
 
-/-- clause (D6): every buffer an operation touches is one of its own SSA operands/results
-(no access through a view such as `memref.subview`) -/
+/-- clause: every buffer an operation touches is the root of one of its own SSA operands/results, i.e. it is
+reached through a chain of the view-like operations the pass follows (`rt`), not through any other aliasing
+(block arguments, iter_args, calls). -/
+def RootVisible (rt : Nat → Nat) (p : Blk) : Prop :=
+  ∀ l ∈ leavesB p, ∀ b, (b ∈ l.reads ∨ b ∈ l.writes) → ∃ v ∈ l.vals, rt v = b
+
+/-- the special case without views (the clause of the earlier rounds): the buffer IS an operand/result -/
 def SsaVisible (p : Blk) : Prop :=
   ∀ l ∈ leavesB p, ∀ b, (b ∈ l.reads ∨ b ∈ l.writes) → b ∈ l.vals
 
-/-- clause (DC13a): two dependent operations inside a common loop are direct children of one loop body -/
-def BackEdgeSiblings (p : Blk) : Prop :=
-  ∀ x ∈ leavesB p, ∀ u ∈ leavesB p, Dep x u → LoopOK x u p
+theorem ssaVisible_rootVisible (p : Blk) (h : SsaVisible p) : RootVisible id p :=
+  fun l hl b hb => ⟨b, h l hl b hb, rfl⟩
 
 /-- clause (D30), on the execution: no all-cores operation is followed, without a barrier, by a conflicting
 single-core operation -/
 def NoGlobalBeforeSingleCoreWrite (t : List Ev) : Prop :=
   ∀ a m c e1 e2, t = a ++ Ev.op e1 :: (m ++ Ev.op e2 :: c) → e1.cls = Cls.all → Conflict e1 e2 → Ev.sync ∈ m
 
+/-- static sufficient condition for the D30 clause: operations that run on all cores touch no buffer -/
+def GlobalsInert (p : Blk) : Prop :=
+  ∀ l ∈ leavesB p, l.cls = Cls.all → l.reads = [] ∧ l.writes = []
+
 /-- THE PROPERTY, full strength: after the pass, on every execution path (all branch outcomes, all trip
 counts) every conflicting pair of operations of different core sets has a barrier in between. -/
 def C13_statement : Prop :=
-  ∀ p, WF p → ∀ t, Run (insertBarriers true p) t → Separated t
+  ∀ p rt, WF p → ∀ t, Run (insertBarriers Fix.all rt p) t → Separated t
 
-/-- Nested `scf.if` / `scf.for`, every branch outcome and trip count, the back edges included. -/
-theorem C13_structured_partial (p : Blk) (hwf : WF p) (hssa : SsaVisible p) (hbe : BackEdgeSiblings p)
-    (t : List Ev) (hr : Run (insertBarriers true p) t) (hg : NoGlobalBeforeSingleCoreWrite t) :
+/-- Nested `scf.if` / `scf.for` at any depth, every branch outcome and trip count, every back edge, accesses through
+any chain of views: no clause about loops (FC13a) and none about views the pass follows (FC13b) any more. -/
+theorem C13_structured_partial (p : Blk) (rt : Nat → Nat) (hwf : WF p) (hrv : RootVisible rt p)
+    (t : List Ev) (hr : Run (insertBarriers Fix.all rt p) t) (hg : NoGlobalBeforeSingleCoreWrite t) :
     Separated t := by
   intro a m c e1 e2 ht hc
   by_cases hall : e1.cls = Cls.all
   · exact hg a m c e1 e2 ht hall hc
-  · have h1 : e1 ∈ leavesB p := run_mem _ _ _ _ _ _ _ hr (by rw [ht]; simp)
-    have h2 : e2 ∈ leavesB p := run_mem _ _ _ _ _ _ _ hr (by rw [ht]; simp)
-    have hd : Dep e1 e2 := by
+  · have h1 : e1 ∈ leavesB p := run_mem _ _ _ _ _ _ _ _ hr (by rw [ht]; simp)
+    have h2 : e2 ∈ leavesB p := run_mem _ _ _ _ _ _ _ _ hr (by rw [ht]; simp)
+    have hd : Dep rt e1 e2 := by
       obtain ⟨hne, x, hx⟩ := hc
-      refine ⟨?_, x, ?_⟩
+      refine ⟨?_, ?_⟩
       · cases h : e1.cls with
         | dm => exact Or.inl ⟨rfl, fun h' => hne (by rw [h, h'])⟩
         | cp => exact Or.inr ⟨rfl, fun h' => hne (by rw [h, h'])⟩
         | all => exact absurd h hall
       · rcases hx with ⟨hw, hrw⟩ | ⟨hr1, hw2⟩
-        · exact ⟨hssa e1 h1 x (Or.inr hw), hssa e2 h2 x (hrw.imp id id)⟩
-        · exact ⟨hssa e1 h1 x (Or.inl hr1), hssa e2 h2 x (Or.inr hw2)⟩
-    exact from_single (leavesB p) e1 e2 hd h2 p (plainCtx p) [] t a m c hwf.1 hwf.2 (hbe e1 h1 e2 h2 hd) hr ht
+        · obtain ⟨v, hv, ev⟩ := hrv e1 h1 x (Or.inr hw)
+          obtain ⟨w, hw', ew⟩ := hrv e2 h2 x (hrw.imp id id)
+          exact ⟨v, w, hv, hw', by rw [ev, ew]⟩
+        · obtain ⟨v, hv, ev⟩ := hrv e1 h1 x (Or.inl hr1)
+          obtain ⟨w, hw', ew⟩ := hrv e2 h2 x (Or.inr hw2)
+          exact ⟨v, w, hv, hw', by rw [ev, ew]⟩
+    exact from_single (leavesB p) rt e1 e2 hd h2 p (topCtx p) [] t a m c hwf.1 hwf.2 hr ht
 
-/-- Straight-line code: no loop clause needed. -/
-theorem C13_straightline_partial (p : Blk) (hnd : (idsB p).Nodup) (hsl : StraightLine p) (hssa : SsaVisible p)
-    (t : List Ev) (hr : Run (insertBarriers true p) t) (hg : NoGlobalBeforeSingleCoreWrite t) :
+/-- Straight-line code. -/
+theorem C13_straightline_partial (p : Blk) (rt : Nat → Nat) (hnd : (idsB p).Nodup) (hsl : StraightLine p)
+    (hrv : RootVisible rt p)
+    (t : List Ev) (hr : Run (insertBarriers Fix.all rt p) t) (hg : NoGlobalBeforeSingleCoreWrite t) :
     Separated t :=
-  C13_structured_partial p ⟨hnd, straight_compoundAll p hsl⟩ hssa
-    (fun x _ u _ _ => straight_loopOK x u p hsl) t hr hg
+  C13_structured_partial p rt ⟨hnd, straight_compoundAll p hsl⟩ hrv t hr hg
+
+theorem no_global_of_inert (fx : Fix) (rt : Nat → Nat) (p : Blk) (t : List Ev) (hr : Run (insertBarriers fx rt p) t)
+    (h : GlobalsInert p) : NoGlobalBeforeSingleCoreWrite t := by
+  intro a m c e1 e2 ht hall hc
+  have h1 : e1 ∈ leavesB p := run_mem _ _ _ _ _ _ _ _ hr (by rw [ht]; simp)
+  obtain ⟨hr1, hw1⟩ := h e1 h1 hall
+  obtain ⟨_, x, hx⟩ := hc
+  rw [hr1, hw1] at hx
+  simp at hx
+
+/-- The D30 clause discharged statically: when the operations that run on all cores touch no buffer, every execution
+of the pass output is barrier-separated (no hypothesis about the execution left). -/
+theorem C13_inert_globals_partial (p : Blk) (rt : Nat → Nat) (hwf : WF p) (hrv : RootVisible rt p)
+    (hin : GlobalsInert p) (t : List Ev) (hr : Run (insertBarriers Fix.all rt p) t) : Separated t :=
+  C13_structured_partial p rt hwf hrv t hr (no_global_of_inert _ rt p t hr hin)
 
 /-- Generic: in a barrier-separated execution no epoch holds two conflicting operations. -/
 theorem epoch_race_free (t : List Ev) (h : Separated t) :
@@ -104,14 +135,13 @@ def pIf : Blk :=
       (.leaf (mk 5 .cp [1, 2] [1] [2]) .nil))
 
 theorem C13_alias_fails :
-    ¬ (∀ p, WF p → BackEdgeSiblings p → ∀ t, Run (insertBarriers true p) t →
+    ¬ (∀ p rt, WF p → ∀ t, Run (insertBarriers Fix.all rt p) t →
         NoGlobalBeforeSingleCoreWrite t → Separated t) := by
   intro h
-  have hrun : Run (insertBarriers true pAlias)
+  have hrun : Run (insertBarriers Fix.all id pAlias)
       [Ev.op (mk 1 .all [0, 1] [] []), Ev.op (mk 2 .cp [1, 2] [2] [0]), Ev.op (mk 3 .dm [0, 3] [0] [3])] :=
     run_leaf (run_leaf (run_leaf run_nil))
-  have hs := h pAlias ⟨by decide, by simp [pAlias, CompoundAll]⟩
-    (fun x _ u _ _ => straight_loopOK x u pAlias (by simp [pAlias, StraightLine])) _ hrun
+  have hs := h pAlias id ⟨by decide, by simp [pAlias, CompoundAll]⟩ _ hrun
     (by
       intro a m c e1 e2 ht hall hc
       exfalso
@@ -127,36 +157,29 @@ theorem C13_alias_fails :
   simp at this
 
 theorem C13_global_first_fails :
-    ¬ (∀ p, WF p → SsaVisible p → BackEdgeSiblings p → ∀ t, Run (insertBarriers true p) t → Separated t) := by
+    ¬ (∀ p rt, WF p → RootVisible rt p → ∀ t, Run (insertBarriers Fix.all rt p) t → Separated t) := by
   intro h
-  have hrun : Run (insertBarriers true pGlobal)
+  have hrun : Run (insertBarriers Fix.all id pGlobal)
       [Ev.op (mk 1 .all [0] [0] []), Ev.op (mk 2 .dm [0, 1] [1] [0])] :=
     run_leaf (run_leaf run_nil)
-  have hs := h pGlobal ⟨by decide, by simp [pGlobal, CompoundAll]⟩
-    (by intro l hl b hb; simp [pGlobal, leavesB, mk] at hl; rcases hl with rfl | rfl <;> simp at hb ⊢ <;> omega)
-    (fun x _ u _ _ => straight_loopOK x u pGlobal (by simp [pGlobal, StraightLine])) _ hrun
+  have hs := h pGlobal id ⟨by decide, by simp [pGlobal, CompoundAll]⟩
+    (ssaVisible_rootVisible _ (by
+      intro l hl b hb; simp [pGlobal, leavesB, mk] at hl; rcases hl with rfl | rfl <;> simp at hb ⊢ <;> omega))
+    _ hrun
   have := hs [] [] [] (mk 1 .all [0] [0] []) (mk 2 .dm [0, 1] [1] [0]) rfl
     ⟨by simp [mk], 0, Or.inr ⟨by simp [mk], by simp [mk]⟩⟩
   simp at this
 
 
-theorem no_global_of_inert (p : Blk) (t : List Ev) (hr : Run (insertBarriers true p) t)
-    (h : ∀ l ∈ leavesB p, l.cls = Cls.all → l.reads = [] ∧ l.writes = []) : NoGlobalBeforeSingleCoreWrite t := by
-  intro a m c e1 e2 ht hall hc
-  have h1 : e1 ∈ leavesB p := run_mem _ _ _ _ _ _ _ hr (by rw [ht]; simp)
-  obtain ⟨hr1, hw1⟩ := h e1 h1 hall
-  obtain ⟨_, x, hx⟩ := hc
-  rw [hr1, hw1] at hx
-  simp at hx
-
-theorem C13_backedge_fails :
-    ¬ (∀ p, WF p → SsaVisible p → ∀ t, Run (insertBarriers true p) t →
+/-- DC13a: the walk without FC13a (`Fix.f17`) only makes the yield pending for two direct children of one loop. -/
+theorem C13_f17_backedge_fails :
+    ¬ (∀ p, WF p → SsaVisible p → ∀ t, Run (insertBarriers Fix.f17 id p) t →
         NoGlobalBeforeSingleCoreWrite t → Separated t) := by
   intro h
   have hbody : Run (.leaf (mk 2 .cp [1, 2] [1] [2]) (.ifO (mk 3 .all [4] [] [])
       (.sync (.leaf (mk 4 .dm [0, 1] [0] [1]) (.leaf (mk 5 .all [] [] []) .nil))) .nil .nil)) _ :=
     run_leaf (run_ifT (run_sync (run_leaf (run_leaf run_nil))) run_nil)
-  have hrun : Run (insertBarriers true pBackEdge) _ :=
+  have hrun : Run (insertBarriers Fix.f17 id pBackEdge) _ :=
     run_for2 (l := mk 1 .all [5, 6, 7] [] []) (y := mk 6 .all [] [] []) (ys := false) hbody hbody run_nil
   have hs := h pBackEdge ⟨by decide, by simp [pBackEdge, CompoundAll, mk]⟩
     (by
@@ -164,7 +187,7 @@ theorem C13_backedge_fails :
       simp [pBackEdge, leavesB, mk] at hl
       rcases hl with rfl | rfl | rfl | rfl | rfl | rfl <;> simp at hb ⊢ <;> omega)
     _ hrun
-    (no_global_of_inert _ _ hrun (by
+    (no_global_of_inert _ _ _ _ hrun (by
       intro l hl hall
       simp [pBackEdge, leavesB, mk] at hl
       rcases hl with rfl | rfl | rfl | rfl | rfl | rfl <;> simp at hall ⊢))
@@ -174,13 +197,13 @@ theorem C13_backedge_fails :
     ⟨by simp [mk], 1, Or.inl ⟨by simp [mk], Or.inl (by simp [mk])⟩⟩
   simp at this
 
-/-- D5: the walk of the pinned commit (`fixed = false`) clears the whole pending list at the barrier it places
+/-- D5: the walk of the pinned commit (`Fix.orig`) clears the whole pending list at the barrier it places
 inside the `scf.if`; the path that skips the branch reaches the second consumer without a barrier. -/
 theorem C13_unfixed_if_fails :
-    ¬ (∀ p, WF p → SsaVisible p → BackEdgeSiblings p → ∀ t, Run (insertBarriers false p) t →
+    ¬ (∀ p, WF p → SsaVisible p → ∀ t, Run (insertBarriers Fix.orig id p) t →
         NoGlobalBeforeSingleCoreWrite t → Separated t) := by
   intro h
-  have hrun : Run (insertBarriers false pIf) _ :=
+  have hrun : Run (insertBarriers Fix.orig id pIf) _ :=
     run_leaf (l := mk 1 .dm [0, 1] [0] [1])
       (run_ifE (l := mk 2 .all [4] [] [])
         (a := .sync (.leaf (mk 3 .cp [1, 2] [1] [2]) (.leaf (mk 4 .all [] [] []) .nil)))
@@ -190,7 +213,6 @@ theorem C13_unfixed_if_fails :
       intro l hl b hb
       simp [pIf, leavesB, mk] at hl
       rcases hl with rfl | rfl | rfl | rfl | rfl <;> simp at hb ⊢ <;> omega)
-    (fun x _ u _ _ => by simp [pIf, LoopOK])
     _ hrun
     (by
       intro a m c e1 e2 ht hall hc
@@ -208,10 +230,35 @@ theorem C13_unfixed_if_fails :
   simp at this
 
 /-- with F17 the same function gets its second barrier (after the `scf.if`) -/
-example : insertBarriers true pIf =
+example : insertBarriers Fix.f17 id pIf =
     .leaf (mk 1 .dm [0, 1] [0] [1])
       (.ifO (mk 2 .all [4] [] []) (.sync (.leaf (mk 3 .cp [1, 2] [1] [2]) (.leaf (mk 4 .all [] [] []) .nil))) .nil
         (.sync (.leaf (mk 5 .cp [1, 2] [1] [2]) .nil))) := by decide
+
+/-- with FC13a the DC13a witness gets the barrier in front of the loop's yield -/
+example : insertBarriers Fix.all id pBackEdge =
+    .forO (mk 1 .all [5, 6, 7] [] []) (.leaf (mk 2 .cp [1, 2] [1] [2])
+      (.ifO (mk 3 .all [4] [] []) (.sync (.leaf (mk 4 .dm [0, 1] [0] [1]) (.leaf (mk 5 .all [] [] []) .nil))) .nil .nil))
+      true (mk 6 .all [] [] []) .nil := by decide
+
+/-- with FC13b (`rt` = root under the view `%1 = subview %0`) the D6 witness gets its barrier, and the program
+meets `RootVisible` although it is not `SsaVisible` -/
+example : insertBarriers Fix.all (rootOf [(1, 0)] 1) pAlias =
+    .leaf (mk 1 .all [0, 1] [] []) (.leaf (mk 2 .cp [1, 2] [2] [0]) (.sync (.leaf (mk 3 .dm [0, 3] [0] [3]) .nil))) ∧
+    RootVisible (rootOf [(1, 0)] 1) pAlias ∧ ¬ SsaVisible pAlias := by
+  refine ⟨by decide, ?_, ?_⟩
+  · intro l hl b hb
+    simp [pAlias, leavesB, mk] at hl
+    rcases hl with rfl | rfl | rfl <;> simp at hb ⊢
+    · rcases hb with rfl | rfl
+      · exact Or.inr (by decide)
+      · exact Or.inl (by decide)
+    · rcases hb with rfl | rfl
+      · exact Or.inl (by decide)
+      · exact Or.inr (by decide)
+  · intro h
+    have := h (mk 2 .cp [1, 2] [2] [0]) (by simp [pAlias, leavesB]) 0 (Or.inr (by simp [mk]))
+    simp [mk] at this
 
 /-! ## non-vacuity -/
 
@@ -223,35 +270,30 @@ def pLoop : Blk :=
 
 /-- the hypotheses of `C13_structured_partial` are met by a loop with a loop-carried cross-core dependency;
 the pass puts a barrier between producer and consumer and one in front of the yield -/
-example : WF pLoop ∧ SsaVisible pLoop ∧ BackEdgeSiblings pLoop ∧
-    insertBarriers true pLoop = .forO (mk 1 .all [5, 6, 7] [] [])
+example : WF pLoop ∧ RootVisible id pLoop ∧ GlobalsInert pLoop ∧
+    insertBarriers Fix.all id pLoop = .forO (mk 1 .all [5, 6, 7] [] [])
       (.leaf (mk 2 .dm [0, 1] [0] [1]) (.sync (.leaf (mk 3 .cp [1, 2] [1] [2]) .nil))) true (mk 4 .all [] [] [])
       (.leaf (mk 5 .all [] [] []) .nil) ∧
-    ∃ t, Run (insertBarriers true pLoop) t ∧ NoGlobalBeforeSingleCoreWrite t ∧ 10 ≤ t.length := by
+    ∃ t, Run (insertBarriers Fix.all id pLoop) t ∧ NoGlobalBeforeSingleCoreWrite t ∧ 10 ≤ t.length := by
   have hbody : Run (.leaf (mk 2 .dm [0, 1] [0] [1]) (.sync (.leaf (mk 3 .cp [1, 2] [1] [2]) .nil))) _ :=
     run_leaf (run_sync (run_leaf run_nil))
-  have hrun : Run (insertBarriers true pLoop) _ :=
+  have hrun : Run (insertBarriers Fix.all id pLoop) _ :=
     run_for2 (l := mk 1 .all [5, 6, 7] [] []) (y := mk 4 .all [] [] []) (ys := true) hbody hbody
       (run_leaf (l := mk 5 .all [] [] []) run_nil)
-  refine ⟨⟨by decide, by simp [pLoop, CompoundAll, mk]⟩, ?_, ?_, by decide, _, hrun, ?_, by simp [ySync]⟩
-  · intro l hl b hb
+  have hin : GlobalsInert pLoop := by
+    intro l hl hall
     simp [pLoop, leavesB, mk] at hl
-    rcases hl with rfl | rfl | rfl | rfl | rfl <;> simp at hb ⊢ <;> omega
-  · intro x hx u hu hd
-    simp [pLoop, leavesB] at hx hu
-    rcases hx with rfl | rfl | rfl | rfl | rfl <;> rcases hu with rfl | rfl | rfl | rfl | rfl <;>
-      first
-        | (exfalso; revert hd; simp [Dep, mk]; done)
-        | simp [pLoop, LoopOK, SibLoop, kidL, leavesB, mk]
-  · exact no_global_of_inert _ _ hrun (by
-      intro l hl hall
-      simp [pLoop, leavesB, mk] at hl
-      rcases hl with rfl | rfl | rfl | rfl | rfl <;> simp at hall ⊢)
+    rcases hl with rfl | rfl | rfl | rfl | rfl <;> simp at hall ⊢
+  refine ⟨⟨by decide, by simp [pLoop, CompoundAll, mk]⟩, ssaVisible_rootVisible _ ?_, hin, by decide, _, hrun,
+    no_global_of_inert _ _ _ _ hrun hin, by simp [ySync]⟩
+  intro l hl b hb
+  simp [pLoop, leavesB, mk] at hl
+  rcases hl with rfl | rfl | rfl | rfl | rfl <;> simp at hb ⊢ <;> omega
 
 /-- straight-line instance: producer on the DMA core, consumer on the compute core -/
 example : (idsB (Blk.leaf (mk 1 .dm [0, 1] [0] [1]) (.leaf (mk 2 .cp [1, 2] [1] [2]) .nil))).Nodup ∧
     StraightLine (Blk.leaf (mk 1 .dm [0, 1] [0] [1]) (.leaf (mk 2 .cp [1, 2] [1] [2]) .nil)) ∧
-    insertBarriers true (Blk.leaf (mk 1 .dm [0, 1] [0] [1]) (.leaf (mk 2 .cp [1, 2] [1] [2]) .nil)) =
+    insertBarriers Fix.all id (Blk.leaf (mk 1 .dm [0, 1] [0] [1]) (.leaf (mk 2 .cp [1, 2] [1] [2]) .nil)) =
       .leaf (mk 1 .dm [0, 1] [0] [1]) (.sync (.leaf (mk 2 .cp [1, 2] [1] [2]) .nil)) := by
   refine ⟨by decide, by simp [StraightLine], by decide⟩
 
@@ -289,13 +331,12 @@ theorem snax_to_func_preserves (q : Blk) (hk : CompoundKept q) (t' : List Ev) (h
   exact ⟨t, h1, h2, fun hs => h2 ▸ separated_lowerT t hs⟩
 
 /-- `insert-sync-barrier` followed by `snax-to-func`: the code that runs is barrier-separated on every path. -/
-theorem C13_lowered_partial (p : Blk) (hwf : WF p) (hk : CompoundKept p) (hssa : SsaVisible p)
-    (hbe : BackEdgeSiblings p)
-    (hg : ∀ t, Run (insertBarriers true p) t → NoGlobalBeforeSingleCoreWrite t)
-    (t' : List Ev) (hr : Run (lowerB (insertBarriers true p)) t') : Separated t' := by
-  obtain ⟨t, h1, _, h3⟩ := snax_to_func_preserves (insertBarriers true p)
-    (walk_compoundKept true _ p _ _ hk) t' hr
-  exact h3 (C13_structured_partial p hwf hssa hbe t h1 (hg t h1))
+theorem C13_lowered_partial (p : Blk) (rt : Nat → Nat) (hwf : WF p) (hk : CompoundKept p) (hrv : RootVisible rt p)
+    (hg : ∀ t, Run (insertBarriers Fix.all rt p) t → NoGlobalBeforeSingleCoreWrite t)
+    (t' : List Ev) (hr : Run (lowerB (insertBarriers Fix.all rt p)) t') : Separated t' := by
+  obtain ⟨t, h1, _, h3⟩ := snax_to_func_preserves (insertBarriers Fix.all rt p)
+    (walk_compoundKept Fix.all _ rt p _ _ hk) t' hr
+  exact h3 (C13_structured_partial p rt hwf hrv t h1 (hg t h1))
 
 /-- producer on the DMA core, consumer on the compute core, the buffer freed, the result copied out:
 `copy %0 -> %4 ; generic ins(%4) outs(%2) ; dealloc %4 ; copy %2 -> %3` -/
@@ -306,7 +347,7 @@ def pDealloc : Blk :=
 
 /-- the barrier that `insert-sync-barrier` places in front of the dealloc is the only one between the compute
 operation and the copy-out; the lowering erases the dealloc and keeps that barrier -/
-example : lowerB (insertBarriers true pDealloc) =
+example : lowerB (insertBarriers Fix.all id pDealloc) =
     .leaf (mk 1 .dm [0, 4] [0] [4]) (.sync (.leaf (mk 2 .cp [2, 4] [4] [2])
       (.sync (.leaf (mk 4 .dm [2, 3] [2] [3]) .nil)))) ∧ CompoundKept pDealloc ∧ (idsB pDealloc).Nodup := by
   refine ⟨by decide, by simp [pDealloc, CompoundKept], by decide⟩
@@ -314,5 +355,49 @@ example : lowerB (insertBarriers true pDealloc) =
 example : lowerT [Ev.op (mk 1 .dm [0, 4] [0] [4]), Ev.sync,
       Ev.op { id := 3, cls := .all, vals := [4], reads := [], writes := [4], dealloc := true }, Ev.sync] =
     [Ev.op (mk 1 .dm [0, 4] [0] [4]), Ev.sync, Ev.sync] := by decide
+
+/-! ## `dispatch-regions`: every core executes every barrier
+
+Through the model of the real `dispatch-regions` of property C14 (`SnaxVerif.Dispatch`: the grouping dispatcher, the
+`scf.if` guards on `core_id == c`, both phases, every block, any number of cores): an operation that neither rule
+dispatches - a barrier (`snax.cluster_sync_op`, later the call of `@snax_cluster_hw_barrier`) in particular - is
+never put under a core guard. -/
+
+/-- For every function, every number of cores `nb`, every core, every resolution of the control flow: the
+non-dispatched operations (barriers included) that the core executes after `dispatch-regions`, in order, are exactly
+those it executes in the function before the pass. No barrier is lost under a guard, none is executed twice, on
+any core. -/
+theorem barriers_survive_dispatch (f : Dispatch.Func) (nb core : Nat) (orc : Dispatch.Orc) (fuel entry : Nat)
+    (isBarrier : Dispatch.Leaf → Bool)
+    (hb : ∀ l, isBarrier l = true → Dispatch.dmOf l = false ∧ Dispatch.cpOf l = false) :
+    (Dispatch.runF core orc (Dispatch.dispatch true nb f) fuel entry).filter isBarrier =
+      (Dispatch.runF core orc f fuel entry).filter isBarrier := by
+  rw [SnaxVerif.C14.C14_dispatch f nb core orc fuel entry, List.filter_filter]
+  congr 1
+  funext l
+  cases h : isBarrier l with
+  | false => simp
+  | true =>
+    obtain ⟨h1, h2⟩ := hb l h
+    simp [Dispatch.allowed, h1, h2]
+
+/-- two cores meet the same barriers when they follow the same path through the function before the pass -/
+theorem barriers_same_on_all_cores (f : Dispatch.Func) (nb c1 c2 : Nat) (orc : Dispatch.Orc) (fuel entry : Nat)
+    (isBarrier : Dispatch.Leaf → Bool)
+    (hb : ∀ l, isBarrier l = true → Dispatch.dmOf l = false ∧ Dispatch.cpOf l = false)
+    (hsame : Dispatch.runF c1 orc f fuel entry = Dispatch.runF c2 orc f fuel entry) :
+    (Dispatch.runF c1 orc (Dispatch.dispatch true nb f) fuel entry).filter isBarrier =
+      (Dispatch.runF c2 orc (Dispatch.dispatch true nb f) fuel entry).filter isBarrier := by
+  rw [barriers_survive_dispatch f nb c1 orc fuel entry isBarrier hb,
+    barriers_survive_dispatch f nb c2 orc fuel entry isBarrier hb, hsame]
+
+/-- a barrier between a copy (DMA core) and a generic (compute core), three cores: every core executes it -/
+example :
+    let f : Dispatch.Func := ⟨[], [⟨.cons (.leaf ⟨1, .copy, false⟩) (.cons (.leaf ⟨2, .other, false⟩)
+      (.cons (.leaf ⟨3, .generic, true⟩) .nil)), .ret⟩]⟩
+    ∀ core, core < 3 →
+      ((Dispatch.runF core (fun _ _ _ => []) (Dispatch.dispatch true 3 f) 1 0).filter
+        (fun l => l.kind == .other)).map (·.id) = [2] := by
+  decide
 
 end SnaxVerif.C13
